@@ -1728,8 +1728,13 @@ class NLDFAuxiliaryPlan(ABC):
             a_g = self.get_interpolation_arguments(rho_tuple, i=i)[0]
             p, dp = self.get_interpolation_coefficients(a_g, i=i, dbuf=dbuf)
             if coeff_multipliers is not None:
-                p[:] *= coeff_multipliers[:, None]
-                dp[:] *= coeff_multipliers[:, None]
+                # p, dp are (nalpha, ngrids) for 'qg' and (ngrids, nalpha) for 'gq'
+                if self.coef_order == "qg":
+                    cmul = np.asarray(coeff_multipliers)[:, None]
+                else:
+                    cmul = np.asarray(coeff_multipliers)[None, :]
+                p[:] *= cmul
+                dp[:] *= cmul
             if apply_transformation:
                 self.get_transformed_interpolation_terms(p, i=i, fwd=True, inplace=True)
                 self.get_transformed_interpolation_terms(
@@ -1776,8 +1781,13 @@ class NLDFAuxiliaryPlan(ABC):
             a_g, da_tuple = self.get_interpolation_arguments(rho_tuple, i=i)
             p, dp = self.get_interpolation_coefficients(a_g, i=i, dbuf=dbuf)
             if coeff_multipliers is not None:
-                p[:] *= coeff_multipliers[:, None]
-                dp[:] *= coeff_multipliers[:, None]
+                # p, dp are (nalpha, ngrids) for 'qg' and (ngrids, nalpha) for 'gq'
+                if self.coef_order == "qg":
+                    cmul = np.asarray(coeff_multipliers)[:, None]
+                else:
+                    cmul = np.asarray(coeff_multipliers)[None, :]
+                p[:] *= cmul
+                dp[:] *= cmul
             occd_a_g = occd_rho_data[0] * da_tuple[0]
             occd_a_g[:] += occd_sigma * da_tuple[1]
             if self.nldf_settings.sl_level == "MGGA":
